@@ -1,14 +1,40 @@
 #!/bin/sh
 # usage: tools/seedcheck.sh <ID> <patch.diff> [extra vcheck args]
-# applies a seeded change in a scratch worktree, runs the check against it, reverts.
+# applies a seeded change in a scratch worktree, runs the check against it,
+# records the outcome next to the patch (detection.json), reverts.
 ID=$1; PATCH=$2; shift 2
 WT=/tmp/wt_seedcheck_$ID
 [ -d $WT ] || git -C /repo worktree add --detach $WT >/dev/null 2>&1
 git -C $WT checkout -q --detach $(git -C /repo rev-parse HEAD)
 git -C $WT checkout -- . ; git -C $WT clean -fdq
 if ! git -C $WT apply --3way "$PATCH" 2>/tmp/seedcheck_apply.err && ! git -C $WT apply "$PATCH" 2>>/tmp/seedcheck_apply.err; then echo "PATCH DOES NOT APPLY"; cat /tmp/seedcheck_apply.err; exit 3; fi
+git -C $WT reset -q
 (cd $WT && GOFLAGS=-mod=mod go build ./... ) || { echo "DOES NOT COMPILE"; exit 3; }
 cd /verif
-VERIF_REPO=$WT ./bin/vcheck $ID "$@" | tail -6
-echo "exit=$?"
+cp evidence/$ID.json /tmp/seedcheck_evidence_$ID.json 2>/dev/null
+START=$(date +%s)
+VERIF_REPO=$WT ./bin/vcheck $ID "$@" > /tmp/seedcheck_$ID.log 2>&1
+RC=$?
+END=$(date +%s)
+grep -v "^KNOWN" /tmp/seedcheck_$ID.log | tail -6
+echo "exit=$RC"
+python3 - "$ID" "$PATCH" "$RC" "$((END-START))" "$*" <<'PY'
+import json,sys,os,subprocess
+id_,patch,rc,secs,args=sys.argv[1:6]
+ev=json.load(open(f'/verif/evidence/{id_}.json'))
+out={"check":id_,"args":args,"tier":ev.get("tier"),"verif_seed":ev.get("seed"),"exit":int(rc),"detected":int(rc)==1,
+     "violation_signatures":ev["coverage"].get("violation_signatures"),"wall_s":int(secs),
+     "repo_head":subprocess.run(["git","-C","/repo","rev-parse","--short","HEAD"],capture_output=True,text=True).stdout.strip()}
+d=os.path.dirname(patch)
+p=os.path.join(d,"detection.json")
+hist=[]
+if os.path.exists(p):
+    try: hist=json.load(open(p))
+    except Exception: hist=[]
+hist.append(out)
+json.dump(hist,open(p,"w"),indent=1)
+print("recorded", p)
+PY
+# the evidence file of the real tree is restored (this run was against a patched copy)
+cp /tmp/seedcheck_evidence_$ID.json evidence/$ID.json 2>/dev/null
 git -C $WT checkout -- . ; git -C $WT clean -fdq
